@@ -58,8 +58,8 @@ def main():
         if k not in tus: tus[k] = compile_tu(k[0], k[1], k[2], list(k[3]), pid)
         h['_tu'] = tus[k]
     # ---- run
-    jobs_per = 3
-    par = a.par or max(1, min(len(hs), 16 // jobs_per))
+    jobs_per = 1
+    par = a.par or max(1, min(len(hs), 14))
     procs = []; results = {}
     pending = list(hs)
     def launch(h):
